@@ -829,3 +829,58 @@ def gen_dict_sequence(rng, maxlen=8):
         else:
             ops.append(["kremove", v])
     return init, ops
+
+
+# ====================================================================== whole-collection assignment
+def run_bulk_replace(kind, old_idx, new_idx):
+    """`parent.coll = <new plain collection>` (orm.collections.bulk_replace): afterwards the
+    attribute holds an instrumented collection with exactly the new members (list: in the given
+    order), one append event per member that was not there, one remove event per member that
+    is gone, none for members that stay, and the backref side follows membership.
+    old_idx / new_idx are duplicate-free item index lists.  Returns (key, detail) or None."""
+    E = env()
+    items, idx = new_items()
+    cls, backref = {"list": ("PList", "lparent"), "set": ("PSet", "sparent"), "dict": ("PDict", "dparent")}[kind]
+    p = E[cls]()
+    log = E["log"]
+    if kind == "list":
+        p.coll.extend(items[i] for i in old_idx)
+        newval = [items[i] for i in new_idx]
+    elif kind == "set":
+        p.coll.update(items[i] for i in old_idx)
+        newval = {items[i] for i in new_idx}
+    else:
+        for i in old_idx:
+            p.coll.set(items[i])
+        newval = {str(i): items[i] for i in new_idx}
+    old_coll = p.coll
+    del log[:]
+    try:
+        with watchdog():
+            p.coll = newval
+    except Exception as e:  # noqa: BLE001
+        return ("instrumented-%s-assign-exception" % kind, "old %s new %s raised %r" % (old_idx, new_idx, e))
+    evs = list(log)
+    got = p.coll
+    members = list(got.values()) if kind == "dict" else list(got)
+    mem_idx = [idx_of(idx, o) for o in members]
+    desc = "old %s new %s -> members %s events %s" % (old_idx, new_idx, mem_idx, ev_tok(idx, evs))
+    if got is newval or got is old_coll or not hasattr(got, "_sa_adapter"):
+        return ("instrumented-%s-assign-not-instrumented" % kind, desc)
+    if (kind == "list" and mem_idx != list(new_idx)) or sorted(mem_idx) != sorted(new_idx):
+        return ("instrumented-%s-assign-contents" % kind, desc)
+    if kind == "dict" and {k: idx_of(idx, v) for k, v in got.items()} != {str(i): i for i in new_idx}:
+        return ("instrumented-%s-assign-contents" % kind, desc)
+    apps_ = sorted(idx_of(idx, v) for k, v in evs if k == "A")
+    rems_ = sorted(idx_of(idx, v) for k, v in evs if k == "R")
+    exp_rems = sorted(set(old_idx) - set(new_idx))
+    if apps_ != sorted(set(new_idx) - set(old_idx)) or rems_ != exp_rems:
+        if kind == "list" and apps_ == sorted(set(new_idx) - set(old_idx)) and rems_ == sorted(exp_rems * 2):
+            # same root cause as instrumented-list-remove-absent-fires-remove-event (G1), reached through
+            # the backref: CollectionAttributeImpl.pop -> InstrumentedList.remove on the new collection
+            return ("instrumented-list-assign-remove-event-twice-with-backref", desc)
+        return ("instrumented-%s-assign-events" % kind, desc)
+    why = owner_state_ok(p, got, items, members, backref)
+    if why:
+        return ("instrumented-%s-assign-owner-state" % kind, desc + " | " + why)
+    return None
